@@ -358,7 +358,7 @@ class Interp:
                     self.err(node, "read of %s.%s: %s" % (obj.cls, attr, v.why))
                 self.ctx.note_read(obj, attr)
                 return v
-            cm = self.module.class_member(obj.cls, attr)
+            cm = self.module.class_member(obj.cls, attr) or self.lib._class_member_any(self, obj.cls, attr)
             if cm is not None:
                 kind, fnode, qual = cm
                 if kind == "property":
